@@ -2131,7 +2131,9 @@ def distance2_to_line(pt, l0, l1):
     l1 = np.atleast_1d(l1)
     reshape = pt.ndim == 1
     if reshape:
-        pt.shape = l0.shape = l1.shape = (1, pt.shape[0])
+        pt = pt.reshape(1, pt.shape[0])
+        l0 = l0.reshape(1, pt.shape[1])
+        l1 = l1.reshape(1, pt.shape[1])
     result = (
         (l0[:, 0] - l1[:, 0]) * (l0[:, 1] - pt[:, 1])
         - (l0[:, 0] - pt[:, 0]) * (l0[:, 1] - l1[:, 1])
